@@ -179,6 +179,10 @@ def u_frame(c):
                     bad.append("%s: self.stream.%s (line %d)" % (cls.__name__, node.attr, node.lineno))
     c.cover("frame")
     c.ghost["last_exc"] = "; ".join(bad)
+    if bad:
+        # the composition argument (HTTP layer over C11's stream contract) no longer applies as written; that says nothing about the requests read: undecided, not a violation
+        from pyvc import core
+        raise core.Unsupported("the HTTP layer reaches into the stream outside the read/write/close API (%s): the segmentation-independence argument does not apply as written" % bad[0])
     c.oblige("http-layer-touches-the-stream-only-through-read/write/close-api", not bad, kind="frame")
 
 
